@@ -123,9 +123,16 @@ fn put_type31(b: &mut [u8], o: usize, hdr: &[u8; 28], el: u8) -> usize {
 /// Two messages: [frame TY][type-31] or [type-31][frame TY]; headers and the elevation number are
 /// symbolic.  Count, order, headers and contents kinds must be those of the messages decoded alone.
 fn two_messages<const FRAME_FIRST: bool, const TY: u8>() {
+    two_messages_h2::<FRAME_FIRST, TY, true>()
+}
+
+/// H2_SYM = false: the second message's header is concrete zeros (except its type), so that if the
+/// first message is framed wrongly the bytes mistaken for the next header are concrete and the
+/// misframing is decided instead of turning the dispatch symbolic (which CBMC does not get through).
+fn two_messages_h2<const FRAME_FIRST: bool, const TY: u8, const H2_SYM: bool>() {
     let mut b = [0u8; FRAME + 76];
     let h1: [u8; 28] = kani::any();
-    let h2: [u8; 28] = kani::any();
+    let h2: [u8; 28] = if H2_SYM { kani::any() } else { [0u8; 28] };
     let el: u8 = kani::any();
     if FRAME_FIRST {
         put_header(&mut b, 0, TY, &h1);
@@ -170,6 +177,15 @@ macro_rules! two_harness {
     };
 }
 two_harness!(c03_frame15_then_type31, true, 15);
+
+/// Twin of c03_type31_then_frame15 with a concrete second header (see two_messages_h2).
+#[kani::proof]
+#[kani::unwind(30)]
+#[kani::stub(alloc::fmt::format, crate::stubs::fmt_format)]
+#[kani::stub(<[u8; 4] as core::convert::TryFrom<&[u8]>>::try_from, crate::stubs::array_try_from)]
+fn c03_type31_then_frame15_concrete_tail() {
+    two_messages_h2::<false, 15, false>();
+}
 two_harness!(c03_type31_then_frame15, false, 15);
 two_harness!(c03_type31_then_frame2, false, 2);
 
@@ -229,3 +245,61 @@ cut_harness!(c03_cut_opaque_body_at_0, 13, 0);
 cut_harness!(c03_cut_opaque_body_at_1200, 13, 1200);
 cut_harness!(c03_cut_opaque_body_at_2403, 7, 2403);
 cut_harness!(c03_cut_status_body_at_57, 2, 57);
+
+/// A type-31 message of ODD length (one 8-bit REF moment with 3 gates: 28 + 32 + 4 + 28 + 3 = 95
+/// bytes, symbolic message header, elevation number and gate bytes) followed by a type-15 frame with a
+/// concrete header: the frame must be read from byte 95 exactly (a decoder that pads or aligns the end
+/// of a radial misframes everything after it).
+#[kani::proof]
+#[kani::unwind(30)]
+#[kani::stub(alloc::fmt::format, crate::stubs::fmt_format)]
+#[kani::stub(<[u8; 4] as core::convert::TryFrom<&[u8]>>::try_from, crate::stubs::array_try_from)]
+fn c03_type31_odd_length_then_frame15() {
+    const T31: usize = 28 + 32 + 4 + 28 + 3;
+    let mut b = [0u8; T31 + FRAME];
+    let h1: [u8; 28] = kani::any();
+    let el: u8 = kani::any();
+    let g: [u8; 3] = kani::any();
+    put_header(&mut b, 0, 31, &h1);
+    let h = 28;
+    b[h + 22] = el;
+    b[h + 31] = 1;
+    b[h + 35] = 36;
+    let k = h + 36;
+    b[k] = b'D';
+    b[k + 1] = b'R';
+    b[k + 2] = b'E';
+    b[k + 3] = b'F';
+    b[k + 9] = 3; // gates
+    b[k + 19] = 8; // word size
+    b[k + 28] = g[0];
+    b[k + 29] = g[1];
+    b[k + 30] = g[2];
+    let mut h2 = [0u8; 28];
+    h2[17] = 0x5A; // sequence number, to tell the header apart from zero padding
+    h2[27] = 1;
+    put_header(&mut b, T31, 15, &h2);
+    let mut c = Cursor::new(&b[..]);
+    let ms = match decode_messages(&mut c) {
+        Ok(ms) => ms,
+        Err(e) => {
+            core::mem::forget(e);
+            panic!("C03: a well-formed two-message stream failed to decode")
+        }
+    };
+    assert!(ms.len() == 2, "C03: two messages in, two messages out");
+    check_header(&ms[0], 31, &h1);
+    check_header(&ms[1], 15, &h2);
+    match ms[0].contents() {
+        MessageContents::DigitalRadarData(d) => {
+            assert!(d.header.elevation_number == el, "C03: type-31 message decoded from the wrong position");
+            match &d.reflectivity_data_block {
+                Some(r) => assert!(r.encoded_data.len() == 3 && r.encoded_data[0] == g[0] && r.encoded_data[2] == g[2], "C03: gate bytes"),
+                None => panic!("C03: type-31 block lost"),
+            }
+        }
+        _ => panic!("C03: type-31 message surfaced as something else"),
+    }
+    wit!(el == 9);
+    core::mem::forget(ms);
+}
